@@ -1,6 +1,7 @@
 // C17: text and header input is parsed faithfully or rejected, never mis-handled (DESIGN.md §6 C17).
 //
 // Modes (VERIF_MODE): "roundtrip" (a) print->parse->print fixed point for every registered class,
+//                     "truncate"  (b) every truncation (line / byte) of every corpus seed through every entry point,
 //                     "mutate"    (b) grammar-aware mutation campaign on headers / parameter texts STIR wrote itself,
 //                     "keywords"  (c) keyword case / white-space / alias / vector-index behaviour against a reference normaliser.
 //
@@ -645,6 +646,25 @@ triage_dead_child(const std::string& text_in, int wstatus, const std::string& en
   return "exit-" + std::to_string(WIFEXITED(wstatus) ? WEXITSTATUS(wstatus) : -1) + ":" + entry;
 }
 
+// Per-input CPU budget.  Work that is linear in a count given by the header (e.g. 65535 time frames) is 20-50 times slower in
+// the sanitizer build, so there the budget only bounds the cost of the campaign: exceeding it is counted, not reported.  The
+// release build runs the same inputs (same seed and case numbers) with a generous budget; only there "does not finish" is a
+// violation (hang:<entry>:<changed key>).
+#if defined(__SANITIZE_ADDRESS__)
+#  define C17_SANITIZED 1
+#elif defined(__has_feature)
+#  if __has_feature(address_sanitizer)
+#    define C17_SANITIZED 1
+#  endif
+#endif
+#ifdef C17_SANITIZED
+constexpr bool budget_is_verdict = false;
+constexpr int cpu_budget_s = 20;
+#else
+constexpr bool budget_is_verdict = true;
+constexpr int cpu_budget_s = 120;
+#endif
+
 struct Isolator
 {
   bool nofork = false;
@@ -714,8 +734,8 @@ struct Isolator
         if (dn >= 0)
           ::dup2(dn, 1);
         struct rlimit rl;
-        rl.rlim_cur = 30;
-        rl.rlim_max = 40;
+        rl.rlim_cur = cpu_budget_s;
+        rl.rlim_max = cpu_budget_s + 10;
         ::setrlimit(RLIMIT_CPU, &rl);
         rl.rlim_cur = rl.rlim_max = 0;
         ::setrlimit(RLIMIT_CORE, &rl);
@@ -795,6 +815,16 @@ struct Isolator
       {
         res.status = 2; // the caller reports the unbounded allocation
         res.how = "died-after-unbounded-allocation";
+        return res;
+      }
+    if (!budget_is_verdict && WIFSIGNALED(wstatus) && (WTERMSIG(wstatus) == SIGXCPU || WTERMSIG(wstatus) == SIGKILL)
+        && text.find("ERROR: AddressSanitizer") == std::string::npos && text.find("runtime error:") == std::string::npos)
+      {
+        res.viols.clear();
+        res.status = 0;
+        res.how = "cpu-budget-exceeded";
+        res.counts.clear();
+        res.count("inputs_exceeding_cpu_budget_in_sanitizer_build_(judged_in_rel)");
         return res;
       }
     std::string excerpt;
@@ -988,8 +1018,9 @@ public:
     add_start_key("test parameters");
     add_stop_key("end test parameters");
     add_key("int value", &i_v);
-    add_alias_key("int value", "integer value", false);
-    add_alias_key("int value", "old int value", true);
+    // (aliases registered with capitals and repeated white space: they have to be normalised like keywords)
+    add_alias_key("int value", "Integer  Value", false);
+    add_alias_key("Int_Value", "OLD int value", true);
     add_key("unsigned value", &u_v);
     add_key("long value", &l_v);
     add_key("unsigned long value", &ul_v);
@@ -1002,7 +1033,7 @@ public:
     add_key("list of strings", &ls_v);
     add_key("number of items", KeyArgument::INT, static_cast<KeywordProcessor>(&TestParser::read_num_items), &n_items);
     add_vectorised_key("item int", &vi_v);
-    add_alias_key("item int", "item integer", false);
+    add_alias_key("item int", "Item_Integer", false);
     add_vectorised_key("item double", &vd_v);
     add_vectorised_key("item float", &vf_v);
     add_vectorised_key("item string", &vs_v);
@@ -1440,6 +1471,28 @@ find_start_keyword(const RegClass& c)
   return cap.text.substr(b, e - b);
 }
 
+// Values for classes whose bare defaults are rejected by their own post_processing although they need no external data
+// (tried only after the bare start keyword was rejected).
+const std::map<std::string, std::string>&
+minimal_values()
+{
+  static const std::string matrix = "Ray tracing matrix parameters :=\nEnd Ray tracing matrix parameters :=\n";
+  static const std::string fwd = "Forward Projector Using Matrix Parameters :=\nmatrix type := Ray Tracing\n" + matrix + "End Forward Projector Using Matrix Parameters :=\n";
+  static const std::string bck = "Back Projector Using Matrix Parameters :=\nmatrix type := Ray Tracing\n" + matrix + "End Back Projector Using Matrix Parameters :=\n";
+  static const std::map<std::string, std::string> m = {
+    { "Shape3D/Ellipsoid", "radius-x (in mm) := 3\nradius-y (in mm) := 4\nradius-z (in mm) := 5\n" },
+    { "Shape3D/Ellipsoidal Cylinder", "radius-x (in mm) := 3\nradius-y (in mm) := 4\nlength-z (in mm) := 5\n" },
+    { "Shape3D/Box3D", "length-x (in mm) := 3\nlength-y (in mm) := 4\nlength-z (in mm) := 5\n" },
+    { "ForwardProjectorByBin/Matrix", "matrix type := Ray Tracing\n" + matrix },
+    { "BackProjectorByBin/Matrix", "matrix type := Ray Tracing\n" + matrix },
+    { "ProjectorByBinPair/Matrix", "Matrix type := Ray Tracing\n" + matrix },
+    { "ProjectorByBinPair/Separate Projectors", "Forward projector type := Matrix\n" + fwd + "Back projector type := Matrix\n" + bck },
+    { "ForwardProjectorByBin/Pre Smoothing", "Original Forward projector type := Matrix\n" + fwd + "filter type := None\n" },
+    { "BackProjectorByBin/Post Smoothing", "Original Back projector type := Matrix\n" + bck + "filter type := None\n" },
+  };
+  return m;
+}
+
 // returns "" and sets why if the class cannot be constructed/printed from defaults
 std::string
 default_parameter_info(const RegClass& c, std::string& why)
@@ -1450,7 +1503,22 @@ default_parameter_info(const RegClass& c, std::string& why)
       why = "no-start-keyword-found";
       return std::string();
     }
-  std::istringstream in(kw + " :=\n");
+  std::string first_text = kw + " :=\n";
+  {
+    // the bare start keyword is always parsed (it is the smallest parameter text); if it is rejected, try the minimal values
+    std::istringstream in0(first_text);
+    std::unique_ptr<RegisteredObjectBase> o0;
+    try
+      {
+        o0.reset(c.read(&in0, c.name));
+      }
+    catch (const std::exception&)
+      {}
+    auto mv = minimal_values().find(c.id());
+    if (!o0 && mv != minimal_values().end())
+      first_text += mv->second;
+  }
+  std::istringstream in(first_text);
   std::unique_ptr<RegisteredObjectBase> obj;
   try
     {
@@ -1765,11 +1833,36 @@ check_image(Result& r, const VoxelsOnCartesianGrid<float>& im, const Input& in, 
   if (L >= 0 && bpp > 0)
     {
       r.count("data_length_checks");
-      if (voxels * static_cast<double>(bpp) > static_cast<double>(L))
+      // largest 'data offset in bytes[k]' of a data set that was read (only if every such line is well formed, 1 <= k <= frames, no k twice)
+      double max_off = 0;
+      {
+        bool ok = true;
+        std::set<long> seen;
+        for (auto& l : sc.lines)
+          {
+            if (!l.is_assignment || l.kw != "data offset in bytes")
+              continue;
+            char *e1 = nullptr, *e2 = nullptr;
+            const long k = std::strtol(l.index_raw.c_str(), &e1, 10);
+            const double off = std::strtod(l.value.c_str(), &e2);
+            if (!l.has_index || e1 == l.index_raw.c_str() || *e1 != '\0' || e2 == l.value.c_str() || *e2 != '\0' || k < 1 || k > frames_read || off < 0
+                || !seen.insert(k).second)
+              {
+                ok = false;
+                break;
+              }
+            max_off = std::max(max_off, off);
+          }
+        if (!ok || !sc.simple)
+          max_off = 0;
+        else if (max_off > 0)
+          r.count("data_length_checks_with_offset");
+      }
+      if (max_off + voxels * static_cast<double>(bpp) > static_cast<double>(L))
         {
           r.viol("short-data-file-accepted:" + entry,
-                 "image of " + std::to_string(static_cast<long>(voxels)) + " voxels x >= " + std::to_string(bpp) + " bytes accepted from a data file of "
-                     + std::to_string(L) + " bytes (mutation " + in.kinds + ")\n--- header:\n" + clip(in.text));
+                 "image of " + std::to_string(static_cast<long>(voxels)) + " voxels x >= " + std::to_string(bpp) + " bytes at offset " + std::to_string(static_cast<long>(max_off))
+                     + " accepted from a data file of " + std::to_string(L) + " bytes (mutation " + in.kinds + ")\n--- header:\n" + clip(in.text, 3000));
           return;
         }
     }
@@ -3439,6 +3532,80 @@ run_keywords_case(Ctx& ctx, long sub)
     keywords_headers(ctx);
 }
 
+// =====================================================================================================================
+// mode "truncate": enumeration of the truncations of every corpus seed (at every line, or at every byte with VERIF_C17_TRUNC=byte,
+// optionally every n-th byte with VERIF_C17_TRUNC_STRIDE=n) through every entry point of its family
+// =====================================================================================================================
+void
+run_truncate_case(Ctx& ctx, long sub)
+{
+  build_corpus(ctx);
+  const char* tb = std::getenv("VERIF_C17_TRUNC");
+  const bool bytes = tb && std::string(tb) == "byte";
+  const char* ts = std::getenv("VERIF_C17_TRUNC_STRIDE");
+  const long stride = bytes && ts ? std::max(1L, std::atol(ts)) : 1;
+  const long phase = stride > 1 ? static_cast<long>(ctx.seed % static_cast<uint64_t>(stride)) : 0;
+  // index -> (seed, entry variant, cut point)
+  long rest = sub;
+  long total = 0;
+  const Seed* seed = nullptr;
+  int variant = 0;
+  long cut = 0;
+  for (auto& sd : g_corpus.seeds)
+    {
+      const long points = bytes ? (static_cast<long>(sd.text.size()) - phase + stride - 1) / stride : static_cast<long>(split_lines(sd.text).size());
+      const long n = points * num_entry_variants(sd.family);
+      total += n;
+      if (!seed && rest < n)
+        {
+          seed = &sd;
+          variant = static_cast<int>(rest / points);
+          cut = bytes ? phase + (rest % points) * stride : rest % points;
+        }
+      else if (!seed)
+        rest -= n;
+    }
+  ctx.desc.add("mode", "truncate").add("unit", bytes ? "byte" : "line").add("enumeration_size", total);
+  if (sub == 0)
+    ctx.count(bytes ? "byte_truncation_points_in_enumeration" : "line_truncation_points_in_enumeration", total);
+  if (!seed)
+    {
+      ctx.count("truncate_indices_beyond_enumeration");
+      return;
+    }
+  Input in;
+  in.seed = seed;
+  in.kinds = bytes ? "trunc-byte" : "trunc-line";
+  in.entry_variant = variant;
+  in.cls = seed->cls;
+  in.path = input_path(*seed);
+  if (bytes)
+    in.text = seed->text.substr(0, static_cast<size_t>(cut));
+  else
+    {
+      auto lines = split_lines(seed->text);
+      lines.resize(static_cast<size_t>(cut));
+      in.text = join_lines(lines);
+    }
+  const std::string entry = entry_name(seed->family, variant);
+  ctx.desc.add("seed", seed->name).add("entry", entry).add("kept", cut).add("input_hash", hex_hash(in.text));
+  spit(in.path, in.text);
+  Result r = g_iso.run(ctx, entry + ":truncated-" + seed->family, seed->name + " truncated after " + std::to_string(cut) + (bytes ? " bytes" : " lines") + " through " + entry,
+                       [&](Result& r1) {
+                         std::string sig;
+                         run_entry(r1, in, sig);
+                         r1.text = sig;
+                       });
+  report_alloc(r, entry, in);
+  report(ctx, r, in.text, "truncation of " + seed->name, seed);
+  ctx.nontrivial = true;
+  ctx.count(bytes ? "byte_truncations_run" : "line_truncations_run");
+  if (r.complete && r.status == 1)
+    ctx.count("truncated_inputs_accepted_and_consistent");
+  else if (r.complete && r.status == 0)
+    ctx.count("truncated_inputs_rejected");
+}
+
 void
 run_case(Ctx& ctx)
 {
@@ -3457,6 +3624,8 @@ run_case(Ctx& ctx)
     run_keywords_case(ctx, sub);
   else if (mode == "mutate")
     run_mutate_case(ctx);
+  else if (mode == "truncate")
+    run_truncate_case(ctx, sub);
   else
     throw std::runtime_error("unknown VERIF_MODE " + mode);
 }
